@@ -24,6 +24,7 @@ const (
 	vrOK vrFault = iota
 	vrErr
 	vrEOF
+	vrTimeout // the device did not answer in time; the session itself is alive
 )
 
 func (f vrFault) err(what string) error {
@@ -32,6 +33,8 @@ func (f vrFault) err(what string) error {
 		return errors.New(what + " failed")
 	case vrEOF:
 		return errors.New(what + ": unexpected EOF")
+	case vrTimeout:
+		return errors.New("errTimeoutError: channel timeout sending input to device (" + what + ")")
 	}
 	return nil
 }
@@ -66,8 +69,11 @@ func (d *vrDriver) Commit() error {
 	}
 	return d.commit.err("commit")
 }
-func (d *vrDriver) Discard() error { d.trace = append(d.trace, "Discard"); return d.discard.err("discard") }
-func (d *vrDriver) Close() error   { d.trace = append(d.trace, "DriverClose"); return nil }
+func (d *vrDriver) Discard() error {
+	d.trace = append(d.trace, "Discard")
+	return d.discard.err("discard")
+}
+func (d *vrDriver) Close() error { d.trace = append(d.trace, "DriverClose"); return nil }
 
 type vrSource struct {
 	xmlErr bool
@@ -87,7 +93,7 @@ func (s *vrSource) ToXML(bool, bool, bool, bool) (*etree.Document, error) {
 	return d, nil
 }
 func (s *vrSource) ToProtoUpdates(context.Context, bool) ([]*sdcpb.Update, error) { return nil, nil }
-func (s *vrSource) ToProtoDeletes(context.Context) ([]*sdcpb.Path, error)          { return nil, nil }
+func (s *vrSource) ToProtoDeletes(context.Context) ([]*sdcpb.Path, error)         { return nil, nil }
 
 func vrCount(tr []string, prefix string) int {
 	n := 0
@@ -156,7 +162,7 @@ func vrCheck(fn, ds string, tr []string, err error, src *vrSource, fail func(cla
 }
 
 func TestVerifReplayNcSet(t *testing.T) {
-	faults := []vrFault{vrOK, vrErr, vrEOF}
+	faults := []vrFault{vrOK, vrErr, vrEOF, vrTimeout}
 	counts := map[string]int{}
 	inner := map[string]string{"candidate": "(*datastore/target.ncTarget).setCandidate", "running": "(*datastore/target.ncTarget).setRunning"}
 	for _, ds := range []string{"candidate", "running", "bogus"} {
@@ -189,7 +195,7 @@ func TestVerifReplayNcSet(t *testing.T) {
 								for _, fn := range fns {
 									counts[fn]++
 								}
-								input := fmt.Sprintf("input=ds=%s ctxCancelledDuring=%q xmlErr=%v emptyDoc=%v edit=%d commit=%d discard=%d (0 ok,1 error,2 EOF error) err=%v trace=%v", ds, cancelAt, xmlErr, empty, fe, fc, fd, err, d.trace)
+								input := fmt.Sprintf("input=ds=%s ctxCancelledDuring=%q xmlErr=%v emptyDoc=%v edit=%d commit=%d discard=%d (0 ok,1 error,2 EOF error,3 timeout error) err=%v trace=%v", ds, cancelAt, xmlErr, empty, fe, fc, fd, err, d.trace)
 								fail := func(clause, why string) {
 									for _, fn := range fns {
 										fmt.Printf("REPLAY-FAIL fn=%s clause=%s %s why=%s\n", fn, clause, input, why)
@@ -202,6 +208,16 @@ func TestVerifReplayNcSet(t *testing.T) {
 									continue
 								}
 								vrCheck(fns[0], ds, d.trace, err, src, fail)
+								// only a dead connection (EOF) excuses the discard
+								if ds == "candidate" && err != nil && len(d.trace) > 0 && d.trace[len(d.trace)-1] == "DriverClose" {
+									failing := fe
+									if fe == vrOK {
+										failing = fc
+									}
+									if failing != vrEOF {
+										fail("close_only_on_dead_connection", "closed without discard after a failure that is not a dead connection")
+									}
+								}
 								// Set's own clause names
 								if ds == "candidate" && err == nil && len(d.trace) > 0 && !(len(d.trace) == 2 && d.trace[1] == "Commit") {
 									fail("success_candidate", "trace "+strings.Join(d.trace, ","))
